@@ -240,8 +240,13 @@ def factory_history(i: int, j: int) -> bool:
         e1, t1 = f.create(), R.Table(list(f.operators))
         f.insert_operator(*ins2)
         e2, t2 = f.create(), R.Table(list(f.operators))
+        # a second factory that gives the SAME new symbol another place in its table: identical texts, different trees
+        g = ylegacy.YaqlFactory() if legacy else yaql.YaqlFactory()
+        alt = {'and': 'or', '+': '*', 'not': '-', '*': '+', '<': 'or', '>': 'and'}[ins1[0]]
+        g.insert_operator(alt, ins1[1] if alt != '-' else False, ins1[2], ins1[3], ins1[4])
+        eg, tg = g.create(), R.Table(list(g.operators))
         ok = True
-        for eng, tab, ops in [(e, t, o) for o in HIST_TEXT_OPS for (e, t) in ((e0, t0), (o0, ot), (e1, t1), (e2, t2), (o0, ot), (e0, t0))]:
+        for eng, tab, ops in [(e, t, o) for o in HIST_TEXT_OPS for (e, t) in ((e0, t0), (o0, ot), (e1, t1), (eg, tg), (e2, t2), (o0, ot), (e1, t1), (eg, tg), (e0, t0))]:
             texts = [seq_tokens(ops, [None, None], [None, None])]
             for sym in (ins1[2], ins2[2]):
                 if sym in tab.binops:
